@@ -237,6 +237,16 @@ def make_builtins(eng):
             return VTuple(sq.concrete)
         return sq
 
+    @reg("set")
+    def _set(args, kwargs, st, eng):
+        # a set built from a sequence: only membership / iteration without order dependence is modelled
+        if not args:
+            return VSeq.of([], INT)
+        sq = eng.as_seq(args[0], st)
+        r = VSeq(sq.len, sq.elem, sq.etype, sq.concrete)
+        r.is_set = True
+        return r
+
     @reg("hasattr")
     def _hasattr(args, kwargs, st, eng):
         v, name = eng.deref(args[0], st), args[1]
